@@ -227,6 +227,12 @@ func (C10) Generate(rng *rand.Rand, tier string) []core.Case {
 	if len(ops) > 0 {
 		cases = append(cases, core.Case{Name: "codec-last", Ops: ops})
 	}
+	// index files of read-only segments
+	nro := 400
+	if tier == "thorough" {
+		nro = 30000
+	}
+	cases = append(cases, genOpenRO(rng, nro)...)
 	// a crash that damages one uncommitted entry and leaves the later ones intact; then an append and a restart
 	ns := 6
 	if tier == "thorough" {
@@ -296,6 +302,8 @@ func c10op(op string) string {
 			offs = append(offs, fmt.Sprint(codec.ReadInt(idx, uint32(i))))
 		}
 		return fmt.Sprintf("ok idx=%s crc=%d off=%d n=%d", strings.Join(offs, ","), lastCrc, newOff, lastEntry+1)
+	case "cx.openro":
+		return openROExec(f)
 	case "cx.read":
 		c := codecFor(f[1])
 		buf := core.UnHex(f[2])
@@ -562,6 +570,12 @@ func (C10) Oracle(ops, impl, model []string) string {
 			return fmt.Sprintf("op %d hangs", i)
 		}
 		f := strings.Fields(o)
+		if f[0] == "cx.openro" {
+			if m := openROOracle(o, out); m != "" {
+				return fmt.Sprintf("op %d: %s", i, m)
+			}
+			continue
+		}
 		if f[0] == "cw.stale" {
 			var a, b int64
 			if _, err := fmt.Sscanf(out, "first=%d second=%d", &a, &b); err == nil && b != a+1 {
